@@ -104,15 +104,11 @@ fn visit<'a>(
             Ok(())
         }
         Type::Name(ident) => {
-            // The type arguments are stored inline in the instantiated type
-            // (e.g. the `A` in `A?`), so they are part of the cycle check.
-            // A list only holds a pointer to its elements and therefore
-            // breaks the cycle.
-            if !matches!(types.get(&ident.name), Some(TypeDefinition::List(_)))
-            {
-                for arg in &ident.arguments {
-                    visit(types, visited, arg)?;
-                }
+            // The type arguments are part of the instantiated type (e.g.
+            // the `A` in `A?` or `List[A]`): types are converted
+            // structurally, so they are part of the cycle check.
+            for arg in &ident.arguments {
+                visit(types, visited, arg)?;
             }
             visit_name(types, visited, ident.name)
         }
